@@ -58,7 +58,7 @@ mod listing {
     ];
     pub const CONDS: &[&str] = &["EXIT", "HUP", "INT", "QUIT", "TERM", "USR1", "USR2"];
     pub const OPTS: &[&str] = &["clobber", "glob", "hashondefinition", "ignoreeof", "notify", "pipefail", "unset", "vi"];
-    const KEYWORDS: &[&str] = &["if", "then", "else", "elif", "fi", "do", "done", "case", "esac", "while", "until", "for", "in", "function", "{", "}", "!", "[["];
+    const KEYWORDS: &[&str] = &["if", "then", "else", "elif", "fi", "do", "done", "case", "esac", "while", "until", "for", "in", "function", "{", "}", "!", "[[", "]]", "select", "namespace"];
 
     thread_local! {
         static SNAP: RefCell<Option<Vec<String>>> = const { RefCell::new(None) };
@@ -505,7 +505,7 @@ mod listing {
                     if name.is_empty() {
                         continue;
                     }
-                    let kind = if KEYWORDS.contains(&name.as_str()) {
+                    let kind = if name.parse::<yash_syntax::parser::lex::Keyword>().is_ok() {
                         "fk"
                     } else if yash_quote::quoted(&name).needs_quoting() {
                         "fq"
